@@ -141,7 +141,7 @@ func init() {
 		id: "C03",
 		gen: func(tier string, seed int) []symx.CaseSpec {
 			var out []symx.CaseSpec
-			maxN := q(tier, 3, 7)
+			maxN := q(tier, 4, 7)
 			for n := 0; n <= maxN; n++ {
 				for slack := 0; slack <= 1; slack++ {
 					for op := 0; op <= 6; op++ {
@@ -180,7 +180,7 @@ func init() {
 			return out
 		},
 		boundsText: map[string]string{
-			"quick":    "length n<=3, capacity field any value in [n+1,n+4] or none, all eight option bits (read-only and no-nesting included) and a mutex present or not, push/transfer batches<=3 with nested Stacks at positions {first, second, first+third}, with and without a push policy, one step of Push/Insert/Transfer/Marshal/Pop/Remove/Reset; histories of 2 steps from constructors with capacity 0..2; constructor capacity argument any int <=64",
+			"quick":    "length n<=4, capacity field any value in [n+1,n+4] or none, all eight option bits (read-only and no-nesting included) and a mutex present or not, push/transfer batches<=3 with nested Stacks at positions {first, second, first+third}, with and without a push policy, one step of Push/Insert/Transfer/Marshal/Pop/Remove/Reset; histories of 2 steps from constructors with capacity 0..2; constructor capacity argument any int <=64",
 			"thorough": "as quick with length n<=7; histories of 3-4 steps from constructors with capacity 0..3",
 		},
 		outside: "capacities further than 3 above the current length (behave as far from the boundary); stacks longer than the bound",
@@ -276,8 +276,8 @@ func init() {
 			var out []symx.CaseSpec
 			for ns := 0; ns <= q(tier, 3, 6); ns++ {
 				for nd := 0; nd <= q(tier, 3, 5); nd++ {
-					for v := 0; v <= 11; v++ {
-						if v >= 3 && nd > 1 {
+					for v := 0; v <= 16; v++ {
+						if v >= 3 && v < 15 && nd > 1 {
 							continue
 						}
 						out = append(out, cs("VH_C15", ns, nd, v))
@@ -287,7 +287,7 @@ func init() {
 			return out
 		},
 		boundsText: map[string]string{
-			"quick":    "source length 0..3 (nil elements by fork, kind/FIFO/options/capacity symbolic), destination length 0..3 with spare backing capacity, destination capacity field none or any value in [nd+1, nd+ns+2]; destination given as Stack, alias, pointer to alias, read-only, zero Stack, foreign value, nil, the source itself (handle, alias, pointer)",
+			"quick":    "source length 0..3 (nil elements by fork, kind/FIFO/options/capacity symbolic), destination length 0..3 with spare backing capacity, destination capacity field none or any value in [nd+1, nd+ns+2]; destination given as Stack, alias, pointer to alias, read-only, zero Stack, foreign value, nil, the source itself (handle, alias, pointer), typed nil pointers and nil pointer chains (**Stack, **alias, ***Stack with a nil middle link), a destination whose push policy refuses an arbitrary subset of the offered values, a no-nesting destination with a Stack in the source",
 			"thorough": "as quick with source lengths 0..6 and destination lengths 0..5",
 		},
 		outside: "src == dst (self-transfer; not in the quantifier); longer stacks",
@@ -455,7 +455,7 @@ func init() {
 			add(2, 2, []int{0, 1, 0, 3, 0, 1, 0, 0, 0})
 			add(2, 3, []int{1, 2, 0, 3, 0, 0, 1, 0, 0, 4, 1, 1, 2, 0})
 			add(3, 2, []int{0, 1, 3, 0, 1, 1, 3, 1, 0, 0, 0, 4, 0, 1, 0, 0})
-			n := q(tier, 100, 1500)
+			n := q(tier, 300, 1500)
 			r := uint64(seed)*2654435761 + 12345
 			for i := 0; i < n; i++ {
 				var digits []int
@@ -472,7 +472,7 @@ func init() {
 			return out
 		},
 		boundsText: map[string]string{
-			"quick":    "103 trees (3 hand-picked + 100 drawn from VERIF_SEED) of depth<=3, width<=3 with text leaves, nil slots, Conditions (native, alias, pointer to alias) with text or Stack / Stack-alias expressions, nested Stacks and Stack aliases; every path length 0..depth+2 with every index an unconstrained 64-bit variable; all eight option bits of every node symbolic",
+			"quick":    "303 trees (3 hand-picked + 300 drawn from VERIF_SEED) of depth<=3, width<=3 with text leaves, nil slots, Conditions (native, alias, pointer to alias) with text or Stack / Stack-alias expressions, nested Stacks and Stack aliases; every path length 0..depth+2 with every index an unconstrained 64-bit variable; all eight option bits of every node symbolic",
 			"thorough": "1503 trees, same generator",
 		},
 		outside: "trees outside the sampled set / deeper or wider than the bound",
@@ -559,7 +559,7 @@ func init() {
 				out = append(out, cs("VH_C04", 1, 2, k, 0), cs("VH_C04_Equal", 1, 2, k, 0))
 				out = append(out, cs("VH_C04", 2, 2, k, 1, 5, k, 0), cs("VH_C04", 2, 2, k, 2, 7, 1, 1, 0, 4, 2))
 			}
-			n := q(tier, 600, 9000)
+			n := q(tier, 1500, 9000)
 			r := uint64(seed)*2654435761 + 4
 			for i := 0; i < n; i++ {
 				var digits []int
@@ -577,7 +577,7 @@ func init() {
 			return out
 		},
 		boundsText: map[string]string{
-			"quick":    "20 hand-picked + 600 seeded trees of depth<=3, width<=3 over AND/OR/NOT/LIST/BASIC (empty stacks included), Conditions with primitive/Stack/Condition expressions, text/int/bool/nil leaves; leaf ints are unconstrained 64-bit variables, leaf bools and all option bits of the root symbolic; the first operator code any of 1..6 (solver variable), the others, user-defined operators, option sets (fold / read-only / display / index+no-nesting) and operator symbols of inner nodes drawn with the shape",
+			"quick":    "20 hand-picked + 1500 seeded trees of depth<=3, width<=3 over AND/OR/NOT/LIST/BASIC (empty stacks included), Conditions with primitive/Stack/Condition expressions, text/int/bool/nil leaves; leaf ints are unconstrained 64-bit variables, leaf bools and all option bits of the root symbolic; the first operator code any of 1..6 (solver variable), the others, user-defined operators, option sets (fold / read-only / display / index+no-nesting) and operator symbols of inner nodes drawn with the shape",
 			"thorough": "20 hand-picked + 9000 seeded trees",
 		},
 		outside: "leaves that are themselves []any; custom (un)marshalers (C14); Conditions without operator (C06/C16 inputs); capacities (Unmarshal does not carry them)",
@@ -691,7 +691,7 @@ func init() {
 			for k := 0; k <= 6; k++ {
 				out = append(out, cs("VH_C05_Hidden", k))
 			}
-			n := q(tier, 200, 4000)
+			n := q(tier, 800, 4000)
 			r := uint64(seed)*2654435761 + 5
 			for i := 0; i < n; i++ {
 				var digits []int
@@ -708,7 +708,7 @@ func init() {
 			return out
 		},
 		boundsText: map[string]string{
-			"quick":    "every leaf type (int, string, bool, *int, **int, []int, [3]int, map[string]int, struct, struct with unexported field, nil) as content with every mutation {none, swap siblings, one more, one fewer, other kind, other capacity, same capacity + one fewer, same capacity + equal}; slices with spare capacity and a struct whose interface field holds a slice; Conditions over every leaf type x {keyword, operator, expression-type} mutations with operator codes symbolic; pointer elements nil or not ([]*int, [2]*int), [][]int, map[string]any / structs / *structs whose interface member is nil on either side, map[int]int, []any, as root leaf / two levels down / Condition expression; kind, keyword, type differences hidden behind a shared symbol or an absent part; comparands that are no Condition; 200 seeded trees (depth<=2, width<=3, <=5 scalar variables per side) sharing one symbolic option word and symbol; every scalar leaf value is a pair of unconstrained 64-bit variables",
+			"quick":    "every leaf type (int, string, bool, *int, **int, []int, [3]int, map[string]int, struct, struct with unexported field, nil) as content with every mutation {none, swap siblings, one more, one fewer, other kind, other capacity, same capacity + one fewer, same capacity + equal}; slices with spare capacity and a struct whose interface field holds a slice; Conditions over every leaf type x {keyword, operator, expression-type} mutations with operator codes symbolic; pointer elements nil or not ([]*int, [2]*int), [][]int, map[string]any / structs / *structs whose interface member is nil on either side, map[int]int, []any, as root leaf / two levels down / Condition expression; kind, keyword, type differences hidden behind a shared symbol or an absent part; comparands that are no Condition; 800 seeded trees (depth<=2, width<=3, <=5 scalar variables per side) sharing one symbolic option word and symbol; every scalar leaf value is a pair of unconstrained 64-bit variables",
 			"thorough": "as quick with 4000 seeded trees, every fifth of depth 3",
 		},
 		outside: "floats/NaN, funcs, chans, typed-nil pointers as compared leaves; custom equality policies (C14); case-folded kinds",
@@ -757,10 +757,10 @@ func init() {
 		id: "C02",
 		gen: func(tier string, seed int) []symx.CaseSpec {
 			var out []symx.CaseSpec
-			for k := 0; k <= 10; k++ {
+			for k := 0; k <= 12; k++ {
 				out = append(out, cs("VH_C02_Named", k))
 			}
-			n := q(tier, 150, 1500)
+			n := q(tier, 300, 1500)
 			r := uint64(seed)*2654435761 + 2
 			for i := 0; i < n; i++ {
 				var digits []int
@@ -778,7 +778,7 @@ func init() {
 			return out
 		},
 		boundsText: map[string]string{
-			"quick":    "11 hand-built trees for the cases the statement names + 150 seeded trees of depth<=3, width<=3 over AND/OR/NOT/LIST/BASIC with text/int/bool leaves, Conditions (padding, paren, encap variants) and nested stacks; the option bits (paren, fold, no-padding, lead-once) of the first 1-2 nodes are solver variables, the others drawn with the shape; symbol none/1/2 bytes, delimiter none/1/2 bytes, encapsulation none/single/pair/single+pair; one text leaf of 0..2 unconstrained bytes (all 256 values: blank, tab, NUL, UTF-8 lead and continuation bytes), the other leaves from a fixed list incl. multi-byte UTF-8, embedded blanks/tabs and the empty string",
+			"quick":    "13 hand-built trees for the cases the statement names (two of them rendered, re-configured and rendered again) + 300 seeded trees of depth<=3, width<=3 over AND/OR/NOT/LIST/BASIC with text/int/bool leaves, Conditions (padding, paren, encap variants) and nested stacks; the option bits (paren, fold, no-padding, lead-once) of the first 1-2 nodes are solver variables, the others drawn with the shape; symbol none/1/2 bytes, delimiter none/1/2 bytes, encapsulation none/single/pair/single+pair; one text leaf of 0..2 unconstrained bytes (all 256 values: blank, tab, NUL, UTF-8 lead and continuation bytes), the other leaves from a fixed list incl. multi-byte UTF-8, embedded blanks/tabs and the empty string",
 			"thorough": "1500 trees, two symbolic text leaves",
 		},
 		outside: "leaves longer than 2 symbolic bytes; lead-once on LIST stacks (statement silent); nil / unknown-typed elements (render as UNKNOWN, outside the statement's domain); presentation policies (C14); aliases (C12)",
